@@ -143,7 +143,7 @@ def c04_init(b):
     L = b.spec_len
     img = W.canonical_image(b.fmt)
     o = [HDR % b.header]
-    o.append('typedef struct { uint8_t buf[%d]; uint8_t fs; } vp_in_t;' % L)
+    o.append('typedef struct { uint8_t buf[%d]; uint8_t fs, fs2; } vp_in_t;' % L)
     o.append('static const uint8_t canon[%d] = %s;' % (L, _c_bytes(img)))
     o.append('void harness(void) {')
     o.append('  VP_INPUT(vp_in_t, in);')
@@ -175,6 +175,12 @@ def c04_init(b):
                  % (ref, L, b.fmt, fnname))
         o.append('  ' + call)
         o.append('  VP_ASSERT(vp_bytes_eq(obj, %s, %d), "C04 %s %s is idempotent");' % (ref, L, b.fmt, fnname))
+        if kind == 'legacy' and b.fmt == 'cvf':
+            # a different argument, twice: the result depends on the arguments of THIS call only
+            o.append('  spec_put(canon_fs, %d, %d, in.fs2);' % (fs['off'], fs['width']))
+            for _ in range(2):
+                o.append('  rc = %s(pdu, in.fs2);' % fnname)
+                o.append('  VP_ASSERT(rc == 0 && vp_bytes_eq(obj, canon_fs, %d), "C04 cvf %s after earlier calls with another subtype still yields the canonical header for its own argument");' % (L, fnname))
         o.append('  free(obj);')
         n += 1
     o.append('  VP_REACH("c04 %s end");' % b.fmt)
